@@ -407,7 +407,7 @@ def pubo_to_puso(P):
                 yield key, value / 2
 
     # not isinstance! because isinstance(PUBO, PUBOMatrix) is True
-    H = PUSOMatrix() if type(P) == PUBOMatrix else qv.PUSO()
+    H = PUSOMatrix() if type(P) in (PUBOMatrix, QUBOMatrix) else qv.PUSO()
 
     for k, v in P.items():
         for key, value in generate_new_key_value(k):
@@ -480,7 +480,7 @@ def puso_to_pubo(H):
                 yield key, value
 
     # not isinstance! because isinstance(PUSO, PUSOMatrix) is True
-    P = PUBOMatrix() if type(H) == PUSOMatrix else qv.PUBO()
+    P = PUBOMatrix() if type(H) in (PUSOMatrix, QUSOMatrix) else qv.PUBO()
 
     for k, v in H.items():
         for key, value in generate_new_key_value(k):
